@@ -155,6 +155,13 @@ struct MultiClientSelector final
         auto& clientSelect = *lockAndData;
         if (!clientSelect.has_value()) log.Warning("Unexpected, claim already released.");
 
+        // Only the client that holds the claim can let go of it
+        if (clientSelect.has_value() && clientSelect.value().get().identifier != identifier)
+        {
+            log.Warning("Client " + identifier + " does not hold the claim -> leaving the selection of " + clientSelect.value().get().identifier + " untouched.");
+            return;
+        }
+
         // Let go of the client
         clientSelect.reset();
     }
